@@ -244,6 +244,7 @@ func TestC17(t *testing.T) {
 		}
 		if !doReplay(h, "allocs", checkAllocs) {
 			for _, c := range singles {
+				h.R.Pending("allocs", c)
 				if err := safely(checkAllocs, c); err != nil {
 					h.fail("allocs", c, err)
 				}
@@ -256,6 +257,7 @@ func TestC17(t *testing.T) {
 	if !doReplay(h, "stream", checkStream) {
 		sc := streamCases(env.Scale(60000, 1000000), env.Scale(8000, 15000), int(env.Seed%5)*4000)
 		for _, c := range sc {
+			h.R.Pending("stream", c)
 			if err := safely(checkStream, c); err != nil {
 				h.fail("stream", c, err)
 			}
